@@ -132,6 +132,7 @@ def prefixes(data, stride):
 
 
 
+KW_RE = re.compile(rb"^([A-Za-z_][A-Za-z_.-]*?)(\d{0,9})$")
 NUM_RE = re.compile(rb"^[+-]?(\d+\.?\d*|\.\d+)([eE][+-]?\d+)?$")
 
 
@@ -140,6 +141,7 @@ def token_mutations(data, cap=2500):
     values, every other token by junk, every line deleted / duplicated / swapped with the next; binary files: each of
     the first 96 bytes set to 00/7F/80/FF.  Deterministically subsampled to 'cap' inputs."""
     out = []
+    kw = []   # keyword variants (never subsampled: few, and they reach the branches that interpret names and ranks)
     if b"\0" in data[:200] or (len(data) > 0 and sum(1 for c in data[:200] if c > 126 or (c < 9)) > 8):
         for i in range(min(96, len(data))):
             for v in (0x00, 0x7F, 0x80, 0xFF):
@@ -161,6 +163,17 @@ def token_mutations(data, cap=2500):
                         reps += [b"7"]
                 else:
                     reps = [b"NA", b"zz9", b"-1", b"#"]
+                    m = KW_RE.match(tok)
+                    if m:
+                        # a keyword with an optional rank (locators "x1", "z2", "sel"; structure and option names): other ranks,
+                        # no rank, a rank where none is expected
+                        base, num = m.group(1), m.group(2)
+                        alts = [base + b"2", base + b"0", base + b"99", base] if not num else \
+                               [base + str(int(num) + 1).encode(), base + b"0", base + b"99", base, base + b"2147483648"]
+                        for r in alts:
+                            if r != tok:
+                                nt = toks[:ti] + [r] + toks[ti + 1:]
+                                kw.append(b"\n".join(lines[:li] + [b" ".join(nt)] + lines[li + 1:]))
                 for r in reps:
                     if r == tok:
                         continue
@@ -173,7 +186,7 @@ def token_mutations(data, cap=2500):
     if len(out) > cap:
         step = len(out) / float(cap)
         out = [out[int(i * step)] for i in range(cap)]
-    return out
+    return kw[:cap] + out
 
 
 def fuzz_target(job):
